@@ -23,6 +23,7 @@ def run(ctx):
         ctx.guard("C19", "roll-step", lambda: rolling.step_shape(ctx, prog))
         ctx.guard("C19", "traits", lambda: vis.trait_census(ctx, prog, scope='hashes::'))
         ctx.guard("C19", "const values", lambda: data.const_census(ctx, prog, data.CONST_SCOPES["C19"], floor=1))
+        ctx.guard("C19", "panic conditions", lambda: beliefs.live_census(ctx, prog, beliefs.SCOPES["C19"][0]))
         ctx.guard("C19", "summaries", lambda: summary.check(ctx, prog, 'generate::hashes::', floor=6))
         ctx.guard("C19", "path summaries", lambda: summary.check_paths(ctx, prog, 'generate::hashes::', floor=0))
         if c in ("dbg", "unsafe_dbg", "strict_dbg"):
